@@ -297,7 +297,7 @@ def callInput (args : List Val) (σ : Store) : Store × Except (List Char) Val :
     | .ok σ1 =>
       match readLine σ1.input with
       | none => (σ1, .error "failed to read input: EOF".toList)
-      | some (line, rest) => ({ σ1 with input := rest }, .ok (.str (trimSpace line)))
+      | some (line, rest) => (σ1.consume rest, .ok (.str (trimSpace line)))
 
 /-- `Callable.Call` of a built-in: new store and the value or the returned `error` -/
 def callNative (P : Platform) (n : Native) (args : List Val) (σ : Store) : Store × Except (List Char) Val :=
@@ -332,8 +332,39 @@ def checkIndex (σ : Store) (a i : Val) (notArray : String) : Except (List Char)
        else .ok (r, k.toNat))
   | _ => .error notArray.toList
 
+/-! ### plumbing combinators
+
+`bind` threads the store and passes abnormal outcomes through.  `seq` is the Go idiom
+`v, signal := i.eval(…); if signal.Type != ControlFlowNone { return nil, signal }`. -/
+
+def Res.bind {α β : Type} (r : Res α) (k : α → Store → Res β) : Res β :=
+  match r with
+  | .ok a σ => k a σ
+  | .abn x => .abn x
+
+def ER.seq (r : ER) (k : Val → Store → ER) : ER :=
+  r.bind fun p σ1 => if p.2 ≠ .none then .ok (.nil, p.2) σ1 else k p.1 σ1
+
+/-- `if utils.HadRuntimeError { return nil, none }` -/
+def guardErr (σ : Store) (k : ER) : ER := if σ.hadError then nilOk σ else k
+
+/-- arity of a callee, if it is callable -/
+def arityOf (σ : Store) : Val → Option Int
+  | .fn id => (σ.funs[id]?).map fun cl => (cl.params.length : Int)
+  | .native n => some (Expect.arity n)
+  | _ => none
+
+def arityMsg (k : Int) (n : Nat) : List Char :=
+  "Expected ".toList ++ intToChars k ++ " arguments but ".toList ++ natToChars n ++ ".".toList
+
 section
 variable (P : Platform)
+
+/-- a built-in call at a call site: count it, run it, turn a returned `error` into a runtime error -/
+def invokeNative (n : Native) (vs : List Val) (parenLine : Nat) (σ : Store) : ER :=
+  match callNative P n vs σ.enterNative with
+  | (σ4, .ok v) => .ok (v, .none) σ4
+  | (σ4, .error m) => nilOk (σ4.rte ("Function call failed: ".toList ++ m) parenLine)
 
 mutual
 
@@ -341,7 +372,7 @@ mutual
 def evalE : Nat → Expr → Nat → Bool → Store → ER
   | 0, _, _, _, _ => .abn .fuel
   | f + 1, e, env, repl, σ =>
-    if σ.hadError then nilOk σ else
+    guardErr σ <|
     match e with
     | .literal v _ => .ok (litVal v, .none) σ
     | .grouping e' _ => evalE f e' env repl σ
@@ -350,192 +381,105 @@ def evalE : Nat → Expr → Nat → Bool → Store → ER
        | some v => .ok (v, .none) σ
        | none => nilOk (σ.rte ("Variable ".toList ++ n ++ " is not defined.".toList) line))
     | .unary op line e' =>
-      (match evalE f e' env repl σ with
-       | .ok (v, sig) σ1 =>
-         if sig ≠ .none then .ok (.nil, sig) σ1
-         else if σ1.hadError then nilOk σ1
-         else
-           (match unop op v with
-            | .ok r => .ok (r, .none) σ1
-            | .error m => nilOk (σ1.rte m line))
-       | .abn x => .abn x)
+      (evalE f e' env repl σ).seq fun v σ1 =>
+        guardErr σ1 <|
+        match unop op v with
+        | .ok r => .ok (r, .none) σ1
+        | .error m => nilOk (σ1.rte m line)
     | .binary l op line r =>
-      (match evalE f l env repl σ with
-       | .ok (a, sig) σ1 =>
-         if sig ≠ .none then .ok (.nil, sig) σ1
-         else if σ1.hadError then nilOk σ1
-         else
-           (match evalE f r env repl σ1 with
-            | .ok (b, sig2) σ2 =>
-              if sig2 ≠ .none then .ok (.nil, sig2) σ2
-              else if σ2.hadError then nilOk σ2
-              else
-                (match binop P σ2 op a b with
-                 | .ok v => .ok (v, .none) σ2
-                 | .error m => nilOk (σ2.rte m line))
-            | .abn x => .abn x)
-       | .abn x => .abn x)
+      (evalE f l env repl σ).seq fun a σ1 =>
+        guardErr σ1 <|
+        (evalE f r env repl σ1).seq fun b σ2 =>
+          guardErr σ2 <|
+          match binop P σ2 op a b with
+          | .ok v => .ok (v, .none) σ2
+          | .error m => nilOk (σ2.rte m line)
     | .logical l op r =>
-      (match evalE f l env repl σ with
-       | .ok (a, sig) σ1 =>
-         if sig ≠ .none then .ok (.nil, sig) σ1
-         else if op = .LOGICAL_OR then
-           (if truthy a then .ok (a, .none) σ1 else evalE f r env repl σ1)
-         else
-           (if !truthy a then .ok (a, .none) σ1 else evalE f r env repl σ1)
-       | .abn x => .abn x)
+      (evalE f l env repl σ).seq fun a σ1 =>
+        if op = .LOGICAL_OR then
+          (if truthy a then .ok (a, .none) σ1 else evalE f r env repl σ1)
+        else
+          (if !truthy a then .ok (a, .none) σ1 else evalE f r env repl σ1)
     | .assign n nameLine v _ =>
-      (match evalE f v env repl σ with
-       | .ok (x, sig) σ1 =>
-         if sig ≠ .none then .ok (.nil, sig) σ1
-         else if σ1.hadError then nilOk σ1
-         else
-           (match σ1.find env n with
-            | some fr => .ok (x, .none) (σ1.define fr n x)
-            | none => .ok (x, .none) (σ1.rte ("Undefined variable '".toList ++ n ++ "'.".toList) nameLine))
-       | .abn x => .abn x)
+      (evalE f v env repl σ).seq fun x σ1 =>
+        guardErr σ1 <|
+        match σ1.find env n with
+        | some fr => .ok (x, .none) (σ1.define fr n x)
+        | none => .ok (x, .none) (σ1.rte ("Undefined variable '".toList ++ n ++ "'.".toList) nameLine)
     | .arrayLit es =>
-      (match evalList f es env repl σ with
-       | .ok (vs, sig) σ1 =>
-         if sig ≠ .none then .ok (.nil, sig) σ1
-         else
-           let (σ2, v) := σ1.newArr vs
-           .ok (v, .none) σ2
-       | .abn x => .abn x)
+      (evalList f es env repl σ).bind fun p σ1 =>
+        if p.2 ≠ .none then .ok (.nil, p.2) σ1
+        else .ok ((σ1.newArr p.1).2, .none) (σ1.newArr p.1).1
     | .objectLit ps =>
-      (match evalProps f (effectiveProps ps) env repl σ with
-       | .ok (kvs, sig) σ1 =>
-         if sig ≠ .none then .ok (.nil, sig) σ1
-         else
-           let (σ2, v) := σ1.newObj kvs
-           .ok (v, .none) σ2
-       | .abn x => .abn x)
+      (evalProps f (effectiveProps ps) env repl σ).bind fun p σ1 =>
+        if p.2 ≠ .none then .ok (.nil, p.2) σ1
+        else .ok ((σ1.newObj p.1).2, .none) (σ1.newObj p.1).1
     | .arrayAccess a i line =>
-      (match evalE f a env repl σ with
-       | .ok (av, sig) σ1 =>
-         if sig ≠ .none then .ok (.nil, sig) σ1
-         else
-           (match evalE f i env repl σ1 with
-            | .ok (iv, sig2) σ2 =>
-              if sig2 ≠ .none then .ok (.nil, sig2) σ2
-              else
-                (match checkIndex σ2 av iv "Invalid array access. Not an array." with
-                 | .error m => nilOk (σ2.rte m line)
-                 | .ok (r, k) =>
-                   -- `array[index]` after the bounds test
-                   (match (σ2.arrs[r]?.getD [])[k]? with
-                    | some v => .ok (v, .none) σ2
-                    | none => .abn .panic))
-            | .abn x => .abn x)
-       | .abn x => .abn x)
+      (evalE f a env repl σ).seq fun av σ1 =>
+        (evalE f i env repl σ1).seq fun iv σ2 =>
+          match checkIndex σ2 av iv "Invalid array access. Not an array." with
+          | .error m => nilOk (σ2.rte m line)
+          | .ok (r, k) =>
+            -- `array[index]` after the bounds test
+            (match (σ2.arrs[r]?.getD [])[k]? with
+             | some v => .ok (v, .none) σ2
+             | none => .abn .panic)
     | .arrayAssign a i v line =>
-      (match evalE f a env repl σ with
-       | .ok (av, sig) σ1 =>
-         if sig ≠ .none then .ok (.nil, sig) σ1
-         else
-           (match evalE f i env repl σ1 with
-            | .ok (iv, sig2) σ2 =>
-              if sig2 ≠ .none then .ok (.nil, sig2) σ2
-              else
-                (match evalE f v env repl σ2 with
-                 | .ok (x, sig3) σ3 =>
-                   if sig3 ≠ .none then .ok (.nil, sig3) σ3
-                   else
-                     (match checkIndex σ3 av iv "Invalid array assignment. Not an array." with
-                      | .error m => nilOk (σ3.rte m line)
-                      | .ok (r, k) =>
-                        .ok (x, .none) { σ3 with arrs := σ3.arrs.set r ((σ3.arrs[r]?.getD []).set k x) })
-                 | .abn x => .abn x)
-            | .abn x => .abn x)
-       | .abn x => .abn x)
+      (evalE f a env repl σ).seq fun av σ1 =>
+        (evalE f i env repl σ1).seq fun iv σ2 =>
+          (evalE f v env repl σ2).seq fun x σ3 =>
+            match checkIndex σ3 av iv "Invalid array assignment. Not an array." with
+            | .error m => nilOk (σ3.rte m line)
+            | .ok (r, k) =>
+              .ok (x, .none) { σ3 with arrs := σ3.arrs.set r ((σ3.arrs[r]?.getD []).set k x) }
     | .propAccess o p line =>
-      (match evalE f o env repl σ with
-       | .ok (ov, sig) σ1 =>
-         if sig ≠ .none then .ok (.nil, sig) σ1
-         else
-           (match ov with
-            | .obj r =>
-              (match (σ1.objs[r]?.getD []).lookup p with
-               | some v => .ok (v, .none) σ1
-               | none =>
-                 nilOk (σ1.rte ("Property '".toList ++ p ++ "' does not exist on object".toList) line))
-            | _ => nilOk (σ1.rte "Invalid property access. Not an object.".toList line))
-       | .abn x => .abn x)
+      (evalE f o env repl σ).seq fun ov σ1 =>
+        match ov with
+        | .obj r =>
+          (match (σ1.objs[r]?.getD []).lookup p with
+           | some v => .ok (v, .none) σ1
+           | none => nilOk (σ1.rte ("Property '".toList ++ p ++ "' does not exist on object".toList) line))
+        | _ => nilOk (σ1.rte "Invalid property access. Not an object.".toList line)
     | .propAssign o p v line =>
-      (match evalE f o env repl σ with
-       | .ok (ov, sig) σ1 =>
-         if sig ≠ .none then .ok (.nil, sig) σ1
-         else
-           (match ov with
-            | .obj r =>
-              (match evalE f v env repl σ1 with
-               | .ok (x, sig2) σ2 =>
-                 if sig2 ≠ .none then .ok (.nil, sig2) σ2
-                 else .ok (x, .none) { σ2 with objs := σ2.objs.set r (upsert p x (σ2.objs[r]?.getD [])) }
-               | .abn x => .abn x)
-            | _ => nilOk (σ1.rte "Invalid object assignment. Not an object.".toList line))
-       | .abn x => .abn x)
+      (evalE f o env repl σ).seq fun ov σ1 =>
+        match ov with
+        | .obj r =>
+          (evalE f v env repl σ1).seq fun x σ2 =>
+            .ok (x, .none) { σ2 with objs := σ2.objs.set r (upsert p x (σ2.objs[r]?.getD [])) }
+        | _ => nilOk (σ1.rte "Invalid object assignment. Not an object.".toList line)
     | .call c parenLine args =>
-      (match evalE f c env repl σ with
-       | .ok (cv, sig) σ1 =>
-         if sig ≠ .none then .ok (.nil, sig) σ1
-         else
-           -- callable? arity?
-           let ar : Option Int :=
-             match cv with
-             | .fn id => (σ1.funs[id]?).map fun cl => (cl.params.length : Int)
-             | .native n => some (Expect.arity n)
-             | _ => none
-           (match ar with
-            | none => nilOk (σ1.rte "Can only call functions.".toList parenLine)
-            | some k =>
-              if k ≠ -1 && (args.length : Int) ≠ k then
-                nilOk (σ1.rte ("Expected ".toList ++ intToChars k ++ " arguments but ".toList ++
-                  natToChars args.length ++ ".".toList) parenLine)
+      (evalE f c env repl σ).seq fun cv σ1 =>
+        match arityOf σ1 cv with
+        | none => nilOk (σ1.rte "Can only call functions.".toList parenLine)
+        | some k =>
+          if k ≠ -1 && (args.length : Int) ≠ k then nilOk (σ1.rte (arityMsg k args.length) parenLine)
+          else
+            (evalList f args env repl σ1).bind fun p σ2 =>
+              if p.2 ≠ .none then .ok (.nil, p.2) σ2
               else
-                (match evalList f args env repl σ1 with
-                 | .ok (vs, sig2) σ2 =>
-                   if sig2 ≠ .none then .ok (.nil, sig2) σ2
-                   else if σ2.hadError then nilOk σ2
-                   else
-                     (match cv with
-                      | .fn id => callFn f id vs σ2
-                      | .native n =>
-                        let σ3 := { σ2 with nativeCalls := σ2.nativeCalls + 1 }
-                        (match callNative P n vs σ3 with
-                         | (σ4, .ok v) => .ok (v, .none) σ4
-                         | (σ4, .error m) => nilOk (σ4.rte ("Function call failed: ".toList ++ m) parenLine))
-                      | _ => .abn .panic)
-                 | .abn x => .abn x))
-       | .abn x => .abn x)
+                guardErr σ2 <|
+                match cv with
+                | .fn id => callFn f id p.1 σ2
+                | .native n => invokeNative P n p.1 parenLine σ2
+                | _ => .abn .panic
 
 /-- elements / arguments, left to right; a signal aborts -/
 def evalList : Nat → List Expr → Nat → Bool → Store → Res (List Val × Signal)
   | 0, _, _, _, _ => .abn .fuel
   | _ + 1, [], _, _, σ => .ok ([], .none) σ
   | f + 1, e :: es, env, repl, σ =>
-    match evalE f e env repl σ with
-    | .ok (v, sig) σ1 =>
-      if sig ≠ .none then .ok ([], sig) σ1
-      else
-        (match evalList f es env repl σ1 with
-         | .ok (vs, sig2) σ2 => .ok (v :: vs, sig2) σ2
-         | .abn x => .abn x)
-    | .abn x => .abn x
+    (evalE f e env repl σ).bind fun p σ1 =>
+      if p.2 ≠ .none then .ok ([], p.2) σ1
+      else (evalList f es env repl σ1).bind fun q σ2 => .ok (p.1 :: q.1, q.2) σ2
 
 /-- object-literal initialisers in `Keys` order -/
 def evalProps : Nat → List (Name × Expr) → Nat → Bool → Store → Res (List (Name × Val) × Signal)
   | 0, _, _, _, _ => .abn .fuel
   | _ + 1, [], _, _, σ => .ok ([], .none) σ
-  | f + 1, (k, e) :: ps, env, repl, σ =>
-    match evalE f e env repl σ with
-    | .ok (v, sig) σ1 =>
-      if sig ≠ .none then .ok ([], sig) σ1
-      else
-        (match evalProps f ps env repl σ1 with
-         | .ok (kvs, sig2) σ2 => .ok ((k, v) :: kvs, sig2) σ2
-         | .abn x => .abn x)
-    | .abn x => .abn x
+  | f + 1, ke :: ps, env, repl, σ =>
+    (evalE f ke.2 env repl σ).bind fun p σ1 =>
+      if p.2 ≠ .none then .ok ([], p.2) σ1
+      else (evalProps f ps env repl σ1).bind fun q σ2 => .ok ((ke.1, p.1) :: q.1, q.2) σ2
 
 /-- `Function.Call` -/
 def callFn : Nat → Nat → List Val → Store → ER
@@ -544,183 +488,124 @@ def callFn : Nat → Nat → List Val → Store → ER
     match σ.funs[id]? with
     | none => .abn .panic
     | some cl =>
-      let (σ1, fe) := σ.newEnv (some cl.env)
-      let σ2 := σ1.define fe cl.name (.fn id)
       -- `arguments[ind]` for each parameter
       if args.length < cl.params.length then .abn .panic
       else
+        let fe := σ.envs.length
+        let σ2 := (σ.newEnv (some cl.env)).1.define fe cl.name (.fn id)
         let σ3 := (cl.params.zip args).foldl (fun s (p : Name × Val) => s.define fe p.1 p.2) σ2
-        match runBody f cl.body fe σ3 with
-        | .ok v σ4 => .ok (v, .none) σ4
-        | .abn x => .abn x
+        (runBody f cl.body fe σ3).bind fun v σ4 => .ok (v, .none) σ4
 
 /-- the statement loop of `Function.Call` -/
 def runBody : Nat → List Stmt → Nat → Store → Res Val
   | 0, _, _, _ => .abn .fuel
   | _ + 1, [], _, σ => .ok .nil σ
   | f + 1, s :: ss, env, σ =>
-    match evalS f s env false σ with
-    | .ok (_, sig) σ1 =>
-      (match sig with
-       | .ret _ v => .ok v σ1
-       | .none => runBody f ss env σ1
-       | _ => .ok .nil σ1)
-    | .abn x => .abn x
+    (evalS f s env false σ).bind fun p σ1 =>
+      match p.2 with
+      | .ret _ v => .ok v σ1
+      | .none => runBody f ss env σ1
+      | _ => .ok .nil σ1
 
 /-- statements of a block: a signal or a set flag ends the block -/
 def evalBlock : Nat → List Stmt → Nat → Bool → Store → ER
   | 0, _, _, _, _ => .abn .fuel
   | _ + 1, [], _, _, σ => nilOk σ
   | f + 1, s :: ss, env, repl, σ =>
-    match evalS f s env repl σ with
-    | .ok (_, sig) σ1 =>
-      if sig ≠ .none then .ok (.nil, sig) σ1
-      else if σ1.hadError then nilOk σ1
-      else evalBlock f ss env repl σ1
-    | .abn x => .abn x
+    (evalS f s env repl σ).seq fun _ σ1 =>
+      guardErr σ1 <| evalBlock f ss env repl σ1
 
 /-- declarations of a `VarListStmt` -/
 def evalDecls : Nat → List VarDecl → Nat → Bool → Store → ER
   | 0, _, _, _, _ => .abn .fuel
   | _ + 1, [], _, _, σ => nilOk σ
   | f + 1, d :: ds, env, repl, σ =>
-    match evalS f (.var d) env repl σ with
-    | .ok (_, sig) σ1 =>
-      if sig ≠ .none then .ok (.nil, sig) σ1
-      else if σ1.hadError then nilOk σ1
-      else evalDecls f ds env repl σ1
-    | .abn x => .abn x
+    (evalS f (.var d) env repl σ).seq fun _ σ1 =>
+      guardErr σ1 <| evalDecls f ds env repl σ1
 
 /-- the `for { … }` of `*ast.While` -/
 def whileLoop : Nat → Expr → Stmt → Nat → Bool → Store → ER
   | 0, _, _, _, _, _ => .abn .fuel
   | f + 1, c, b, env, repl, σ =>
-    match evalE f c env repl σ with
-    | .ok (cv, sig) σ1 =>
-      if sig ≠ .none then .ok (.nil, sig) σ1
-      else if !truthy cv then nilOk σ1
+    (evalE f c env repl σ).seq fun cv σ1 =>
+      if !truthy cv then nilOk σ1
       else
-        (match evalS f b env repl σ1 with
-         | .ok (_, sig2) σ2 =>
-           (match sig2 with
-            | .brk _ => nilOk σ2
-            | .ret l v => .ok (.nil, .ret l v) σ2
-            | _ => whileLoop f c b env repl σ2)
-         | .abn x => .abn x)
-    | .abn x => .abn x
+        (evalS f b env repl σ1).bind fun p σ2 =>
+          match p.2 with
+          | .brk _ => nilOk σ2
+          | .ret l v => .ok (.nil, .ret l v) σ2
+          | _ => whileLoop f c b env repl σ2
 
 /-- the `for { … }` of `*ast.ForStmt` -/
 def forLoop : Nat → Expr → Option Expr → Stmt → Nat → Bool → Store → ER
   | 0, _, _, _, _, _, _ => .abn .fuel
   | f + 1, c, inc, b, env, repl, σ =>
-    match evalE f c env repl σ with
-    | .ok (cv, sig) σ1 =>
-      if sig ≠ .none then .ok (.nil, sig) σ1
-      else if !truthy cv then nilOk σ1
+    (evalE f c env repl σ).seq fun cv σ1 =>
+      if !truthy cv then nilOk σ1
       else
-        (match evalS f b env repl σ1 with
-         | .ok (_, sig2) σ2 =>
-           (match sig2 with
-            | .brk _ => nilOk σ2
-            | .ret l v => .ok (.nil, .ret l v) σ2
-            | _ =>
-              (match inc with
-               | none => forLoop f c inc b env repl σ2
-               | some ie =>
-                 (match evalE f ie env repl σ2 with
-                  | .ok (_, sig3) σ3 =>
-                    if sig3 ≠ .none then .ok (.nil, sig3) σ3
-                    else forLoop f c inc b env repl σ3
-                  | .abn x => .abn x)))
-         | .abn x => .abn x)
-    | .abn x => .abn x
+        (evalS f b env repl σ1).bind fun p σ2 =>
+          match p.2 with
+          | .brk _ => nilOk σ2
+          | .ret l v => .ok (.nil, .ret l v) σ2
+          | _ =>
+            (match inc with
+             | none => forLoop f c inc b env repl σ2
+             | some ie => (evalE f ie env repl σ2).seq fun _ σ3 => forLoop f c inc b env repl σ3)
 
 /-- `eval` on a statement node -/
 def evalS : Nat → Stmt → Nat → Bool → Store → ER
   | 0, _, _, _, _ => .abn .fuel
   | f + 1, s, env, repl, σ =>
-    if σ.hadError then nilOk σ else
+    guardErr σ <|
     match s with
     | .expr e =>
-      (match evalE f e env repl σ with
-       | .ok (v, sig) σ1 =>
-         if sig ≠ .none then .ok (.nil, sig) σ1
-         else if repl && !σ1.hadError then
-           (match stringify σ1 (showFuel σ1) v with
-            | some t => .ok (v, .none) (σ1.print (t ++ ['\n']))
-            | none => .abn .cyclic)
-         else .ok (v, .none) σ1
-       | .abn x => .abn x)
+      (evalE f e env repl σ).seq fun v σ1 =>
+        if repl && !σ1.hadError then
+          (match stringify σ1 (showFuel σ1) v with
+           | some t => .ok (v, .none) (σ1.print (t ++ ['\n']))
+           | none => .abn .cyclic)
+        else .ok (v, .none) σ1
     | .print e =>
-      (match evalE f e env repl σ with
-       | .ok (v, sig) σ1 =>
-         if sig ≠ .none then .ok (v, sig) σ1
-         else if σ1.hadError then nilOk σ1
-         else
-           (match stringify σ1 (showFuel σ1) v with
-            | some t => nilOk (σ1.print (P.nfc t ++ ['\n']))
-            | none => .abn .cyclic)
-       | .abn x => .abn x)
+      (evalE f e env repl σ).bind fun p σ1 =>
+        if p.2 ≠ .none then .ok (p.1, p.2) σ1
+        else
+          guardErr σ1 <|
+          match stringify σ1 (showFuel σ1) p.1 with
+          | some t => nilOk (σ1.print (P.nfc t ++ ['\n']))
+          | none => .abn .cyclic
     | .var d =>
-      let declare (v : Val) (σ1 : Store) : ER :=
+      ER.seq (match d.init with
+       | none => Res.ok (Val.nil, Signal.none) σ
+       | some e => (evalE f e env repl σ).seq fun v σ1 => guardErr σ1 <| .ok (v, .none) σ1) fun v σ1 =>
+        guardErr σ1 <|
         match σ1.getHere env d.name with
         | none => nilOk (σ1.define env d.name v)
         | some _ => nilOk (σ1.rte ("Cannot redeclare variable ".toList ++ d.name ++ ".".toList) d.line)
-      (match d.init with
-       | none => declare .nil σ
-       | some e =>
-         (match evalE f e env repl σ with
-          | .ok (v, sig) σ1 =>
-            if sig ≠ .none then .ok (.nil, sig) σ1
-            else if σ1.hadError then nilOk σ1
-            else declare v σ1
-          | .abn x => .abn x))
     | .varList ds => evalDecls f ds env repl σ
-    | .block ss =>
-      let (σ1, ne) := σ.newEnv (some env)
-      evalBlock f ss ne repl σ1
+    | .block ss => evalBlock f ss σ.envs.length repl (σ.newEnv (some env)).1
     | .ifS c t e =>
-      (match evalE f c env repl σ with
-       | .ok (cv, sig) σ1 =>
-         if sig ≠ .none then .ok (.nil, sig) σ1
-         else if truthy cv then
-           (match evalS f t env repl σ1 with
-            | .ok (_, sig2) σ2 => .ok (.nil, sig2) σ2
-            | .abn x => .abn x)
-         else
-           (match e with
-            | some el =>
-              (match evalS f el env repl σ1 with
-               | .ok (_, sig2) σ2 => .ok (.nil, sig2) σ2
-               | .abn x => .abn x)
-            | none => nilOk σ1)
-       | .abn x => .abn x)
+      (evalE f c env repl σ).seq fun cv σ1 =>
+        if truthy cv then (evalS f t env repl σ1).bind fun p σ2 => .ok (.nil, p.2) σ2
+        else
+          (match e with
+           | some el => (evalS f el env repl σ1).bind fun p σ2 => .ok (.nil, p.2) σ2
+           | none => nilOk σ1)
     | .whileS c b => whileLoop f c b env repl σ
     | .forS init c inc b =>
-      let (σ1, ne) := σ.newEnv (some env)
       (match init with
-       | none => forLoop f c inc b ne repl σ1
+       | none => forLoop f c inc b σ.envs.length repl (σ.newEnv (some env)).1
        | some i =>
-         (match evalS f i ne repl σ1 with
-          | .ok (_, sig) σ2 =>
-            if sig ≠ .none then .ok (.nil, sig) σ2
-            else forLoop f c inc b ne repl σ2
-          | .abn x => .abn x))
+         (evalS f i σ.envs.length repl (σ.newEnv (some env)).1).seq fun _ σ2 =>
+           forLoop f c inc b σ.envs.length repl σ2)
     | .breakS line => .ok (.nil, .brk line) σ
     | .continueS line => .ok (.nil, .cont line) σ
     | .returnS line v =>
       (match v with
        | none => .ok (.nil, .ret line .nil) σ
-       | some e =>
-         (match evalE f e env repl σ with
-          | .ok (x, sig) σ1 =>
-            if sig ≠ .none then .ok (.nil, sig) σ1
-            else .ok (.nil, .ret line x) σ1
-          | .abn x => .abn x))
+       | some e => (evalE f e env repl σ).seq fun x σ1 => .ok (.nil, .ret line x) σ1)
     | .funS name ps body =>
-      let (σ1, ce) := σ.newEnv (some env)
-      let (σ2, fv) := σ1.newFun ⟨name, ps, body, ce⟩
-      nilOk (σ2.define env name fv)
+      let ce := σ.envs.length
+      nilOk (((σ.newEnv (some env)).1.newFun ⟨name, ps, body, ce⟩).1.define env name (.fn σ.funs.length))
 
 end
 
@@ -729,14 +614,12 @@ def interpretLoop : Nat → List Stmt → Nat → Bool → Store → Res Unit
   | 0, _, _, _, _ => .abn .fuel
   | _ + 1, [], _, _, σ => .ok () σ
   | f + 1, s :: ss, env, repl, σ =>
-    match evalS P f s env repl σ with
-    | .ok (_, sig) σ1 =>
-      (match sig with
-       | .brk l => .ok () (σ1.rte "Unexpected 'break' outside of loop.".toList l)
-       | .cont l => .ok () (σ1.rte "Unexpected 'continue' outside of loop.".toList l)
-       | .ret l _ => .ok () (σ1.rte "Unexpected 'return' outside of function.".toList l)
-       | .none => if σ1.hadError then .ok () σ1 else interpretLoop f ss env repl σ1)
-    | .abn x => .abn x
+    (evalS P f s env repl σ).bind fun p σ1 =>
+      match p.2 with
+      | .brk l => .ok () (σ1.rte "Unexpected 'break' outside of loop.".toList l)
+      | .cont l => .ok () (σ1.rte "Unexpected 'continue' outside of loop.".toList l)
+      | .ret l _ => .ok () (σ1.rte "Unexpected 'return' outside of function.".toList l)
+      | .none => if σ1.hadError then .ok () σ1 else interpretLoop f ss env repl σ1
 
 /-- the store `NewInterpreter` + `Interpret` start from: frame 0 holds the built-ins,
     frame 1 is the program's scope -/
